@@ -47,6 +47,7 @@ func (c02) ExhaustiveNote(tier string) (bool, string) {
 func (p c02) Run(c *core.Ctx) {
 	transientFaults := false
 	selfLookups := 0
+	var extra []any
 	var sc *world.Scenario
 	part := "random"
 	ec := p.enumCount(c.Tier)
@@ -134,11 +135,40 @@ func (p c02) Run(c *core.Ctx) {
 				}
 			}
 		}
+		if c.Index%4 == 3 && len(sc.Nodes) <= 40 {
+			// a user post-processor that resolves collaborators through the factory from inside its
+			// property / instantiation callbacks (a customised injector): preferably the eager component
+			// that wires the one being processed - a cycle through a looked-up edge
+			lp := &world.LookupPP{Plan: map[string]string{}, When: []string{"after-inst", "properties", "before"}[c.Rng.Intn(3)], Always: true}
+			adj := sc.NamedAdj()
+			for i := range sc.Nodes {
+				if c.Rng.Intn(3) != 0 || world.Palette[sc.Nodes[i].Type].Lazy {
+					continue
+				}
+				target := -1
+				for h := range adj {
+					for _, t := range adj[h] {
+						if t == i && h != i && !world.Palette[sc.Nodes[h].Type].Lazy && (target < 0 || c.Rng.Intn(2) == 0) {
+							target = h
+						}
+					}
+				}
+				if target >= 0 {
+					lp.Plan[sc.Nodes[i].DisplayName()] = sc.Nodes[target].DisplayName()
+					if _, has := lp.Plan[sc.Nodes[target].DisplayName()]; !has && c.Rng.Intn(2) == 0 {
+						// and back: both directions of the cycle run through looked-up edges
+						lp.Plan[sc.Nodes[target].DisplayName()] = sc.Nodes[i].DisplayName()
+					}
+				}
+			}
+			extra = append(extra, lp)
+			c.Count("post_processor_lookups", len(lp.Plan))
+		}
 	default:
 		part = "self"
 		sc = selfOnlyScenario(c)
 	}
-	r := world.Start(sc, world.Options{})
+	r := world.Start(sc, world.Options{Extra: extra})
 	c.Count("starts", 1)
 	c.Count("registry_steps", r.Tracer.Steps())
 	problems, exp := evalAgainstModel(r, !transientFaults)
